@@ -3,14 +3,16 @@
 (*   cfg   network feature set and the options that are NOT claimed to be irrelevant (case, ip / kappa method,       *)
 (*         branch_results, lv_tol_percent),                                                                          *)
 (*   run   the options the property says results must not depend on (+ the fault type): fault, net.sn_mva,           *)
-(*         inverse_y, the set of buses faulted in the same call,                                                     *)
+(*         inverse_y, the set of buses faulted in the same call, the labelling of the bus table,                     *)
 (*   ref   the run it is compared with (run with exactly ONE dimension reset to its canonical value),               *)
 (*   kind  that dimension ("base": the canonical run itself),                                                       *)
 (*   call  the calc_sc call that realises `run` (CallOf), req  the clauses the spec requires on this state.         *)
 (* Init chooses the configuration and the canonical run; every Next step varies one option dimension that is still  *)
 (* canonical, so the reachable states are exactly: every run once per non-canonical dimension, paired with the run  *)
 (* that differs in that dimension only.  Equality is then required along every edge of this "option cube", which    *)
-(* chains every run to the canonical one.  The harness executes every distinct (cfg, run) on the real calc_sc and   *)
+(* chains every run to the canonical one.  (The labelling is varied LAST and only on runs with sn_mva 1, inverse_y   *)
+(* True and a bus set of LabelBuses: every fault type x every such bus set is relabelled in every way of Labels.)     *)
+(* The harness executes every distinct (cfg, run) on the real calc_sc and                                            *)
 (* ShortCircuitObs.tla evaluates the required clauses on the recorded results.                                       *)
 EXTENDS ShortCircuitDef
 CONSTANTS Gens, Sgens, Rings, CaseVals, IpVals, BranchVals, LvTols,     \* value sets of the cfg fields
@@ -18,14 +20,16 @@ CONSTANTS Gens, Sgens, Rings, CaseVals, IpVals, BranchVals, LvTols,     \* value
           With2ph,             \* BOOLEAN: vary 3ph -> 2ph
           SnVals,              \* subset of {1, 10, 100}, contains 1
           SubsetSizes,         \* cardinalities of the proper bus subsets passed as calc_sc(bus=...)
-          ExtraSubsets         \* additional proper subsets
+          ExtraSubsets,        \* additional proper subsets
+          Labels,              \* subset of LabelSet \ {"default"}: labellings of the bus table that are tried
+          LabelBuses           \* bus sets (of the call) on which the labelling is varied; contains Bus
 VARIABLES cfg, run, ref, kind, call, req
 vars == <<cfg, run, ref, kind, call, req>>
 
 Cfgs == {c \in CfgType : c.gen \in Gens /\ c.sgen \in Sgens /\ c.ring \in Rings /\ c.case \in CaseVals /\ c.ipm \in IpVals
                          /\ c.branch \in BranchVals /\ c.lvtol \in LvTols}
 ProperSubsets == ({S \in SUBSET Bus : Cardinality(S) \in SubsetSizes} \cup ExtraSubsets) \ {{}, Bus}
-Canonical(f) == [fault |-> f, sn |-> 1, inv |-> TRUE, buses |-> Bus]
+Canonical(f) == [fault |-> f, sn |-> 1, inv |-> TRUE, buses |-> Bus, lab |-> "default"]
 
 Init == /\ cfg \in Cfgs
         /\ \E f \in InitFaults : Supported(cfg, f) /\ run = Canonical(f)
@@ -36,11 +40,15 @@ Step(r, k) == /\ Supported(cfg, r.fault)
               /\ run' = r /\ ref' = run /\ kind' = k
               /\ call' = CallOf(cfg, r) /\ req' = Required(cfg, r, run, k)
               /\ UNCHANGED cfg
-VaryFault == With2ph /\ run.fault = "3ph" /\ Step([run EXCEPT !.fault = "2ph"], "fault")
-VarySn == run.sn = 1 /\ \E s \in SnVals \ {1} : Step([run EXCEPT !.sn = s], "sn")
-VaryInv == run.inv /\ Step([run EXCEPT !.inv = FALSE], "inv")
-VarySubset == run.buses = Bus /\ \E S \in ProperSubsets : Step([run EXCEPT !.buses = S], "subset")
-Next == VaryFault \/ VarySn \/ VaryInv \/ VarySubset
+Unlabelled == run.lab = "default"
+VaryFault == Unlabelled /\ With2ph /\ run.fault = "3ph" /\ Step([run EXCEPT !.fault = "2ph"], "fault")
+VarySn == Unlabelled /\ run.sn = 1 /\ \E s \in SnVals \ {1} : Step([run EXCEPT !.sn = s], "sn")
+VaryInv == Unlabelled /\ run.inv /\ Step([run EXCEPT !.inv = FALSE], "inv")
+VarySubset == Unlabelled /\ run.buses = Bus /\ \E S \in ProperSubsets : Step([run EXCEPT !.buses = S], "subset")
+\* the same electrical network, the bus table labelled differently (create_bus(index=...))
+VaryLabel == Unlabelled /\ run.sn = 1 /\ run.inv /\ run.buses \in LabelBuses
+             /\ \E l \in Labels \ {"default"} : Step([run EXCEPT !.lab = l], "label")
+Next == VaryFault \/ VarySn \/ VaryInv \/ VarySubset \/ VaryLabel
 
 \* ---- model-level invariants ---------------------------------------------------------------------------------------
 TypeOK == cfg \in CfgType /\ run \in RunType /\ ref \in RunType /\ kind \in Kinds /\ call = CallOf(cfg, run)
@@ -61,4 +69,11 @@ CFactorTable == \A b \in Bus : /\ CPct(b, cfg) \in {95, 100, 105, 110}
 ConservativeCS == NoCurrentSource(cfg) => ~CurrentSourceActive(cfg)
 OnlySupported == Supported(cfg, run.fault) /\ Supported(cfg, ref.fault)
 RowsAreFaultedBuses == ReportedRows(run) = call.bus /\ call.bus # {}
+\* a labelling is a bijection of the buses; the call addresses buses by label; "rot" and "sparse" send every bus that
+\* carries a generator / a current source to the row position of a bus with another rated voltage, or to no row at all
+LabelsWellFormed == /\ \A l \in LabelSet : Cardinality(AllLabels(l)) = Cardinality(Bus) /\ \A b \in Bus : BusOf(l, LabelOf(l, b)) = b
+                    /\ call.labels = LabelSeq(run.lab) /\ call.bus \subseteq AllLabels(run.lab)
+                    /\ Cardinality(call.bus) = Cardinality(run.buses)
+                    /\ \A b \in {2, 3} : /\ LabelOf("rot", b) \in Bus /\ Vn(LabelOf("rot", b)) # Vn(b)
+                                          /\ LabelOf("sparse", b) \notin Bus
 =============================================================================
